@@ -14,7 +14,9 @@ are strings: "F.<name>", "torch.<name>", "operator.<name>", "U.<name>", "user.<n
 RECIPE (property C16):
   R1  every call_function whose target is a key of the user's `replace` map is replaced by
       its image; otherwise every call_function whose target has a unit-scaled counterpart
-      (TORCH_MAP) is replaced by it; same arguments.  User replacements take precedence.
+      (TORCH_MAP) is replaced by it; same arguments -- except private (underscore) keyword
+      arguments the counterpart does not have: torch.nn modules pass e.g. `_stacklevel`
+      to F.softmax, which only steers a warning.  User replacements take precedence.
   R2  every addition (builtin function named add / iadd) with two node operands one of
       which is computed from the other is a residual connection: the operand that is an
       ancestor is the skip, the other the residual branch;
@@ -173,7 +175,7 @@ def well_nested(nodes: List[Node]) -> bool:
     return True
 
 
-def after_r1(nodes: List[Node], replace: Dict[str, str]) -> List[Node]:
+def after_r1(nodes: List[Node], replace: Dict[str, str], sigs: Optional[Callable[[str], Optional[List[str]]]] = None) -> List[Node]:
     out = []
     for n in nodes:
         m = dict(n)
@@ -182,13 +184,16 @@ def after_r1(nodes: List[Node], replace: Dict[str, str]) -> List[Node]:
                 m["target"] = replace[n["target"]]
             elif n["target"] in TORCH_MAP:
                 m["target"] = TORCH_MAP[n["target"]]
+                params = sigs(m["target"]) if sigs is not None else None
+                if params is not None:
+                    m["kwargs"] = {k: v for k, v in n["kwargs"].items() if not k.startswith("_") or k in params}
         out.append(m)
     return out
 
 
-def spec_rewrite(nodes: List[Node], replace: Dict[str, str], has_constraint: Callable[[str], bool]) -> List[Node]:
+def spec_rewrite(nodes: List[Node], replace: Dict[str, str], has_constraint: Callable[[str], bool], sigs: Optional[Callable[[str], Optional[List[str]]]] = None) -> List[Node]:
     """the graph the recipe prescribes (node names are fresh where nodes are new)"""
-    g = after_r1(nodes, replace)
+    g = after_r1(nodes, replace, sigs)
     cls = classify_adds(g)
     # R2 / R3, in definition order
     k = 0
@@ -459,6 +464,17 @@ GENERIC_NODES: Dict[str, Tuple[str, str, List[Any], Dict[str, Any]]] = {
     "mul": ("call_function", "operator.mul", ["IN", "W"], {}),
     "method_add": ("call_method", "add", ["IN", "W"], {}),
     "method_softmax": ("call_method", "softmax", ["IN", -1], {}),
+    # the calls the torch.nn wrappers of the property's quantifier emit (torch 2.x sources; validated by
+    # bounded/c16_realgraphs.py end to end)
+    "nn.Softmax": ("call_function", "F.softmax", ["IN", -1], {"_stacklevel": 5}),
+    "nn.GELU": ("call_function", "F.gelu", ["IN"], {"approximate": "tanh"}),
+    "nn.LayerNorm": ("call_function", "F.layer_norm", ["IN", (8,), "W", "V", 1e-5], {}),
+    "nn.Embedding": ("call_function", "F.embedding", ["IN", "W", None, None, 2.0, False, False], {}),
+    "nn.Dropout": ("call_function", "F.dropout", ["IN", 0.0, False, False], {}),
+    "nn.SiLU": ("call_function", "F.silu", ["IN"], {"inplace": False}),
+    "nn.RMSNorm": ("call_function", "F.rms_norm", ["IN", (8,), "W", 1e-5], {}),
+    "nn.CrossEntropyLoss": ("call_function", "F.cross_entropy", ["IN", "W"], {"weight": None, "ignore_index": -100, "reduction": "mean", "label_smoothing": 0.0}),
+    "nn.MSELoss": ("call_function", "F.mse_loss", ["IN", "W"], {"reduction": "mean"}),
     "residual_skip_first": ("call_function", "operator.add", ["IN", "BRANCH"], {}),
     "residual_branch_first": ("call_function", "operator.add", ["BRANCH", "IN"], {}),
     "residual_iadd": ("call_function", "operator.iadd", ["IN", "BRANCH"], {}),
@@ -485,7 +501,7 @@ def generic_graph(kind: str, later_residual: bool, skip_source: str) -> Tuple[Li
         g.append(node("b0", "call_function", "torch.matmul", [ref("earlier"), ref("W")]))
         g.append(node("b1", "call_function", "F.softmax", [ref("b0")], {"dim": -1}))
         g.append(node("SBRANCH", "call_function", "torch.matmul", [ref("b1"), ref("W")]))
-    sub = lambda a: ref({"IN": "earlier", "W": "W", "BRANCH": "BRANCH", "SBRANCH": "SBRANCH"}[a]) if isinstance(a, str) and a in ("IN", "W", "BRANCH", "SBRANCH") else a
+    sub = lambda a: ref({"IN": "earlier", "W": "W", "V": "V", "BRANCH": "BRANCH", "SBRANCH": "SBRANCH"}[a]) if isinstance(a, str) and a in ("IN", "W", "V", "BRANCH", "SBRANCH") else a
     g.append(node("n", op, t, [sub(a) for a in args], {k: sub(v) for k, v in kwargs.items()}))
     g.append(node("later", "call_function", "user.plain", [ref("n")], {"y": [ref("n")]}))
     cur = "later"
